@@ -33,6 +33,7 @@ func init() {
 			{ID: "C09-R7", Title: "registry-cached descriptors and converters are written only while they are built", Floor: 5, Run: cachedObjectsImmutable},
 			{ID: "C09-R8", Title: "VMs are not shared through process-wide containers", Floor: 1, Run: vmNotPooled},
 			{ID: "C09-R9", Title: "shared maps are not written under a read lock", Floor: 1, Run: noWritesUnderReadLock},
+			{ID: "C09-R10", Title: "no package-level standard-library object that is unsafe for concurrent use", Floor: 1, Run: noSharedUnsafeStdlibObjects},
 		},
 	})
 }
